@@ -44,6 +44,8 @@ var kdcByz = []refkdc.Perturb{
 	{Kind: "edata-empty-info2"}, {Kind: "edata-empty-info"}, {Kind: "edata-empty-seq"}, {Kind: "edata-garbage"}, {Kind: "edata-absent"}, {Kind: "edata-unknown-etype"},
 	{Kind: "edata-s2k-iter", Arg: 0}, {Kind: "edata-s2k-iter", Arg: 1}, {Kind: "edata-s2k-iter", Arg: 0x7fffffff}, {Kind: "edata-s2k-iter", Arg: 0xffffffff},
 	{Kind: "enc-trunc"}, {Kind: "enc-flip"}, {Kind: "other-usage", Arg: 2}, {Kind: "enc-tag", Arg: 3}, {Kind: "msg-type", Arg: 13}, {Kind: "msg-type", Arg: 11},
+	// the RFC 6806 negotiation answered wrongly by a KDC holding the right keys
+	{Kind: "encpa-bad-checksum"}, {Kind: "encpa-short-checksum"}, {Kind: "encpa-unknown-cksumtype"}, {Kind: "encpa-no-fast"}, {Kind: "encpa-garbage"}, {Kind: "encpa-empty-value"},
 }
 
 // lying and stalling peers on the transport
@@ -142,7 +144,7 @@ func runKDCFlow(tp *Tape, res *core.Result, rng *core.Rng) {
 		return
 	}
 	gk.Seed(tp.RunSeed)
-	pol := refkdc.Policy{RequirePreauth: ex == "as-err25" || ex == "as-pa", Hints: []string{"etype-info2", "etype-info", "pw-salt"}, HintsInASRep: true, CopyAddresses: true}
+	pol := refkdc.Policy{RequirePreauth: ex == "as-err25" || ex == "as-pa", Hints: []string{"etype-info2", "etype-info", "pw-salt"}, HintsInASRep: true, CopyAddresses: true, FASTNegotiation: true}
 	sim := refkdc.New("SIM.TEST", tp.RunSeed, pol)
 	other := refkdc.New("OTHER.TEST", tp.RunSeed+1, refkdc.Policy{})
 	refkdc.Link(sim, other)
@@ -363,6 +365,9 @@ func runAPFlow(tp *Tape, res *core.Result, rng *core.Rng) {
 	inner := http.HandlerFunc(func(w http.ResponseWriter, r *http.Request) { w.WriteHeader(200) })
 	handler := spnego.SPNEGOKRB5Authenticate(inner, kt, service.Logger(discard), service.KeytabPrincipal("HTTP/host.sim.test"))
 	handlerNoLog := spnego.SPNEGOKRB5Authenticate(inner, kt)
+	// a second listener of the same process that tolerates a longer clock skew (the process's one
+	// replay cache learns of it at that listener's first successful verification)
+	handlerLongSkew := spnego.SPNEGOKRB5Authenticate(inner, kt, service.MaxClockSkew(time.Hour), service.Logger(discard))
 	simrt.SleepExact(int64(time.Hour) + 333)
 	service.GetReplayCache(5 * time.Minute)
 	minter := &world.Minter{Seed: tp.RunSeed, Kt: ktm}
@@ -392,6 +397,9 @@ func runAPFlow(tp *Tape, res *core.Result, rng *core.Rng) {
 		minter.PACFor, minter.PlainHook = nil, nil
 		desc := ""
 		h := handler
+		if d%7 == 5 {
+			h = handlerLongSkew
+		}
 		if tp.Mode == "ap-byz" {
 			var name string
 			if d < len(apByz) {
